@@ -49,17 +49,20 @@ def relevant_axioms(axioms, ob):
     for h in ob.hyps:
         syms |= decls(h)
     syms |= decls(ob.goal)
-    chosen, rest = [], list(axioms)
+    chosen = []
+    rest = [(a, {x for x in decls(a) if not x.startswith("sort:")}) for a in axioms]
     changed = True
     while changed:
         changed = False
-        for a in list(rest):
-            d = {x for x in decls(a) if not x.startswith("sort:")}
+        nxt = []
+        for a, d in rest:          # (no list.remove on z3 terms: `==` on them builds new terms)
             if d & syms:
                 chosen.append(a)
-                rest.remove(a)
                 syms |= d
                 changed = True
+            else:
+                nxt.append((a, d))
+        rest = nxt
     return chosen
 
 
@@ -73,20 +76,30 @@ def cone_of_influence(axioms, ob):
     def syms(e):
         return {x for x in decls(e) if not x.startswith("sort:")}
 
+    cached = getattr(ob, "_cone", None)
+    if cached is not None and cached[0] is axioms:
+        return cached[1], cached[2]
     cur = syms(ob.goal)
     pool = [(h, syms(h), "h") for h in ob.hyps] + [(a, syms(a), "a") for a in axioms]
     kept_h, kept_a = [], []
     changed = True
     while changed:
         changed = False
-        for item in list(pool):
+        nxt = []
+        for item in pool:
             e, sy, kind = item
             if sy & cur or (not sy and kind == "h"):
-                pool.remove(item)
                 (kept_h if kind == "h" else kept_a).append(e)
                 if not sy <= cur:
                     cur |= sy
                     changed = True
+            else:
+                nxt.append(item)
+        pool = nxt
+    try:
+        ob._cone = (axioms, kept_a, kept_h)
+    except Exception:
+        pass
     return kept_a, kept_h
 
 
